@@ -7,6 +7,11 @@ ALL = ["C%02d" % i for i in range(1, 21)]
 
 # id -> (category, technique, level text, level note, design ref, engine)
 CHECKS = {
+ "C09": ("model_checking",
+         "bounded-exhaustive enumeration of filter chains (all 81 zoom min/max pairs, lon/lat-alphabet boxes, chains of 2 and 3) x sources x probe coordinates, with a set-model oracle that leaves a 1e-6-tile don't-care band",
+         "Every (min,max) over {absent,0,1,2,3,5,31,32,255}, single filter_bbox over the valid boxes of the C15 lon/lat alphabet (every 7th in quick, all 8190 in thorough; points, slivers, antimeridian and pole touching), zoom x bbox, bbox x bbox and 3-filter chains over representative boxes, zoom x zoom chains - over a MemSource (full z0..4, sparse z5, both corners of z31), from_debug and a real versatiles file: every probe coordinate is looked up and whole levels are streamed; a tile passes unchanged iff it is in every retained zoom range and definitely inside every geographic box (definitely outside => absent; within the rounding guard => not asserted). 19 invalid argument texts (reversed, out of range, wrong arity, nan/inf, text, negative/oversized zoom) must be errors at build time, never panics.",
+         "min > max may be an empty result or a build error. The geographic oracle uses the harness's own Mercator projection with a band of 1e-6 tile plus float slack.",
+         "3/C09", "E-enum"),
  "C08": ("model_checking",
          "exhaustive enumeration of source/coordinate assignments ((2^k)^n) for k=2..4 sources over two coordinate families, with compression assignments and delayed sources; first-source-wins oracle on lookups and streams",
          "For k=2,3,4 sources every assignment 'which sources hold coordinate i' is built for two coordinate families (both sides of the 32-sub-box and 256-block borders at two zoom levels; a sparse-wide level with holes) - 16.9k overlays in quick - with payloads that spell source and coordinate, compression assignments (all equal, all mixed pairs, a mixed triple), sources that answer and open with different delays (first slowest) and every fifth overlay nested in filter_zoom; lookups on the coordinates and their neighbours and streams over levels and boxes must return exactly the first listed source's payload, in the declared (common or none) compression, absent iff no source has it, inside the advertised coverage. The same through real versatiles/pmtiles/tar/mbtiles files (3 assignments in quick, 256 in thorough).",
